@@ -1,16 +1,439 @@
 /-
 C17 — priority containers are faithful to their reference models for every history.
-Property theorems only (helper lemmas live in Asynkit/Lemmas).
+
+Property theorems only; helper lemmas are in Asynkit/Lemmas/{Heap,PQ,PosPQ}.lean.
+All statements are for an arbitrary priority type `π` whose `<` (`plt`) is a strict weak order
+("priorities of any type that only defines `<`") and for every heap library `H` that meets the
+documented `heapq` contract (`HeapLib.Lawful`).
 -/
-import Asynkit.Lemmas.Heap
-import Asynkit.Model.PQ
+import Asynkit.Lemmas.PQ
+import Asynkit.Lemmas.PosPQ
+import Asynkit.Model.PQStep
+import Asynkit.Model.PosPQStep
 
 namespace Asynkit.C17
+open Asynkit PQ
 
-/-- `ordereditems` restore, branch `lp >= lq` (merge without heapify) is sound. -/
+variable {π : Type} {H : HeapLib (Entry π)} {plt : π → π → Bool}
+
+/-! ## The reference model
+
+The specification state is the list of live entries **in arrival order**; the `seq` field of an
+entry is a ghost arrival stamp (strictly increasing along the list).  The specification knows
+nothing about heaps. -/
+
+/-- `e` is what the reference model pops from `L`: it is in `L`, no entry has a smaller priority,
+    and among the entries whose priority is not larger it arrived first. -/
+def IsFirst (plt : π → π → Bool) (L : List (Entry π)) (e : Entry π) : Prop :=
+  e ∈ L ∧ (∀ x ∈ L, plt x.pri e.pri = false) ∧ (∀ x ∈ L, plt e.pri x.pri = false → e.seq ≤ x.seq)
+
+/-- removing the entry with arrival stamp `n` (order of the others untouched) -/
+abbrev without (L : List (Entry π)) (n : Nat) : List (Entry π) := L.filter (fun y => y.seq != n)
+
+/-- `out` is the first `k` entries of the pop order of `L` (or all of them). -/
+def IsPopPrefix (plt : π → π → Bool) (L out : List (Entry π)) (k : Nat) : Prop :=
+  ∃ rest, (out ++ rest).Perm L ∧ Sorted (Entry.lt plt) out ∧
+    (∀ x ∈ out, ∀ y ∈ rest, Entry.lt plt y x = false) ∧ out.length = min k L.length
+
+/-- One step of the reference model (a relation: `remove`/`find`/`reschedule` of an object that
+    occurs several times may pick any occurrence). -/
+inductive SpecStep (plt : π → π → Bool) : List (Entry π) → Op π → Out π → List (Entry π) → Prop
+  | add (L p x n) : (∀ e ∈ L, e.seq < n) → SpecStep plt L (.add p x) .unit (L ++ [⟨p, n, x⟩])
+  | extend (L es n) : (∀ e ∈ L, e.seq < n) → SpecStep plt L (.extend es) .unit (L ++ mkEntries n es)
+  | popEmpty : SpecStep plt [] .pop .indexError []
+  | pop (L e) : IsFirst plt L e → SpecStep plt L .pop (.entry e) (without L e.seq)
+  | peekEmpty : SpecStep plt [] .peek .indexError []
+  | peek (L e) : IsFirst plt L e → SpecStep plt L .peek (.entry e) L
+  | removeAbsent (L x) : (∀ e ∈ L, e.obj ≠ x) → SpecStep plt L (.remove x) .valueError L
+  | remove (L x e) : e ∈ L → e.obj = x → SpecStep plt L (.remove x) (.entry e) (without L e.seq)
+  | findNone (L key rm) : (∀ e ∈ L, key e.obj = false) → SpecStep plt L (.find key rm) .none L
+  | find (L key e) : e ∈ L → key e.obj = true → SpecStep plt L (.find key false) (.entry e) L
+  | findRemove (L key e) : e ∈ L → key e.obj = true →
+      SpecStep plt L (.find key true) (.entry e) (without L e.seq)
+  | reschedNone (L key np) : (∀ e ∈ L, key e.obj = false) → SpecStep plt L (.reschedule key np) .none L
+  | reschedSame (L key np e) : e ∈ L → key e.obj = true → (plt e.pri np || plt np e.pri) = false →
+      SpecStep plt L (.reschedule key np) (.obj e.obj) L
+  | resched (L key np e) : e ∈ L → key e.obj = true →
+      SpecStep plt L (.reschedule key np) (.obj e.obj) (specResched L e.seq np)  -- arrival rank kept
+  | refresh (L) : SpecStep plt L .refresh .unit L
+  | sort (L) : SpecStep plt L .sort .unit L
+  | clear (L) : SpecStep plt L .clear .unit []
+  | ordered (L k out) : IsPopPrefix plt L out k → SpecStep plt L (.ordered k) (.entries out) L
+  | len (L) : SpecStep plt L .len (.nat L.length) L
+
+/-- a run of the reference model over a history from state `L`, with the answers it gives -/
+inductive SpecRun (plt : π → π → Bool) :
+    List (Entry π) → List (Op π) → List (Out π) → List (Entry π) → Prop
+  | nil (L) : SpecRun plt L [] [] L
+  | cons {L op out L1 ops outs L2} : SpecStep plt L op out L1 → SpecRun plt L1 ops outs L2 →
+      SpecRun plt L (op :: ops) (out :: outs) L2
+
+/-! ## Theorems -/
+
+/-- What "pop by ascending priority, arrival order breaking ties" means in terms of
+    `PriEntry.__lt__`: the `Entry.lt`-minimal entry is exactly the reference model's choice. -/
+theorem min_iff_isFirst {L : List (Entry π)} {e : Entry π} (he : e ∈ L) :
+    (∀ x ∈ L, Entry.lt plt x e = false) ↔ IsFirst plt L e := by
+  constructor
+  · intro h
+    refine ⟨he, fun x hx => ?_, fun x hx hex => ?_⟩
+    · have := h x hx
+      simp only [Entry.lt, Bool.or_eq_false_iff] at this
+      exact this.1
+    · have := h x hx
+      simp only [Entry.lt, Bool.or_eq_false_iff, Bool.and_eq_false_iff, Bool.not_eq_false',
+        decide_eq_false_iff_not] at this
+      rcases this.2 with h1 | h1
+      · rw [hex] at h1; cases h1
+      · omega
+  · intro ⟨_, h1, h2⟩ x hx
+    simp only [Entry.lt, Bool.or_eq_false_iff, Bool.and_eq_false_iff, Bool.not_eq_false',
+      decide_eq_false_iff_not]
+    refine ⟨h1 x hx, ?_⟩
+    cases hex : plt e.pri x.pri with
+    | true => left; rfl
+    | false => right; have := h2 x hx hex; omega
+
+/-- the reference model's choice is unique -/
+theorem isFirst_unique {L : List (Entry π)} (hinc : L.Pairwise (fun a b => a.seq < b.seq))
+    {e e' : Entry π} (h : IsFirst plt L e) (h' : IsFirst plt L e') : e = e' :=
+  min_unique hinc h.1 h'.1 ((min_iff_isFirst h.1).mpr h) ((min_iff_isFirst h'.1).mpr h')
+
+/-- **Single-step refinement**: from related states, every operation answers as the reference
+    model allows and leads to related states. -/
+theorem pq_step_refines (hs : StrictWeak plt) (hl : H.Lawful (Entry.lt plt))
+    {s : PQ π} {L : List (Entry π)} (h : R plt s L) (op : Op π) :
+    ∃ L', SpecStep plt L op (step H plt s op).2 L' ∧ R plt (step H plt s op).1 L' := by
+  cases op with
+  | add p x => exact ⟨_, .add L p x s.seq h.bound, h.add hl p x⟩
+  | extend es => exact ⟨_, .extend L es s.seq h.bound, h.extend hl es⟩
+  | pop =>
+    rcases h.pop hs hl with ⟨rfl, hn⟩ | ⟨e, s', hp, he, hmin, hr⟩
+    · exact ⟨[], by simp only [step, hn]; exact .popEmpty, by simpa only [step, hn] using h⟩
+    · refine ⟨_, ?_, by simpa only [step, hp] using hr⟩
+      simp only [step, hp]
+      exact .pop L e ((min_iff_isFirst he).mp hmin)
+  | peek =>
+    obtain ⟨seq, pq⟩ := s
+    cases pq with
+    | nil =>
+      have : L = [] := by simpa using h.perm.symm
+      subst this
+      exact ⟨[], by simp only [step, PQ.peek, List.head?_nil]; exact .peekEmpty, by simpa [step, PQ.peek] using h⟩
+    | cons a l =>
+      have he : a ∈ L := h.perm.subset (by simp)
+      have hmin : ∀ x ∈ L, Entry.lt plt x a = false := fun x hx =>
+        IsHeap.root_min_mem (entryLt_strictWeak hs) h.heap x (h.perm.symm.subset hx)
+      exact ⟨L, by simp only [step, PQ.peek, List.head?_cons]; exact .peek L a ((min_iff_isFirst he).mp hmin),
+        by simpa [step, PQ.peek] using h⟩
+  | remove x =>
+    have := h.remove hl x
+    cases hr : s.remove H plt x with
+    | none =>
+      rw [hr] at this
+      exact ⟨L, by simp only [step, hr]; exact .removeAbsent L x this, by simpa only [step, hr] using h⟩
+    | some r =>
+      obtain ⟨e, s'⟩ := r
+      rw [hr] at this
+      exact ⟨_, by simp only [step, hr]; exact .remove L x e this.1 this.2.1, by simpa only [step, hr] using this.2.2⟩
+  | find key rm =>
+    have := h.find hl key rm
+    cases hr : s.find H plt key rm with
+    | mk o s' =>
+      rw [hr] at this
+      cases o with
+      | none =>
+        obtain ⟨rfl, hk⟩ := this
+        exact ⟨L, by simp only [step, hr]; exact .findNone L key rm hk, by simpa only [step, hr] using h⟩
+      | some e =>
+        obtain ⟨he, hk, hrest⟩ := this
+        cases rm with
+        | false =>
+          simp only [Bool.false_eq_true, if_false] at hrest
+          subst hrest
+          exact ⟨L, by simp only [step, hr]; exact .find L key e he hk, by simpa only [step, hr] using h⟩
+        | true =>
+          simp only [if_true] at hrest
+          exact ⟨_, by simp only [step, hr]; exact .findRemove L key e he hk, by simpa only [step, hr] using hrest⟩
+  | reschedule key np =>
+    have := h.reschedule hl key np
+    cases hr : s.reschedule H plt key np with
+    | mk o s' =>
+      rw [hr] at this
+      cases o with
+      | none =>
+        obtain ⟨rfl, hk⟩ := this
+        exact ⟨L, by simp only [step, hr]; exact .reschedNone L key np hk, by simpa only [step, hr] using h⟩
+      | some x =>
+        obtain ⟨e, he, hk, rfl, hcase⟩ := this
+        rcases hcase with ⟨hsame, rfl⟩ | hr'
+        · exact ⟨L, by simp only [step, hr]; exact .reschedSame L key np e he hk hsame,
+            by simpa only [step, hr] using h⟩
+        · exact ⟨_, by simp only [step, hr]; exact .resched L key np e he hk,
+            by simpa only [step, hr] using hr'⟩
+  | refresh => exact ⟨L, .refresh L, h.refresh hl⟩
+  | sort => exact ⟨L, .sort L, h.sort hs⟩
+  | clear => exact ⟨[], .clear L, R.clear s⟩
+  | ordered k =>
+    have ho := h.ordered hs hl k
+    refine ⟨L, ?_, by simpa only [step] using ho.1⟩
+    simp only [step, ho.2]
+    refine .ordered L k _ ?_
+    have h0 : PopSplit (Entry.lt plt) s.pq [] s.pq := ⟨by simp, h.heap, by simp [Sorted], by simp⟩
+    have hsplit := popN_split hs hl k [] s.pq s.pq h0
+    have hlen := (popN_length hl k [] s.pq).1
+    exact ⟨_, hsplit.perm.trans h.perm, hsplit.sorted, hsplit.below,
+      by simpa [h.perm.length_eq] using hlen⟩
+  | len => exact ⟨L, by simp only [step, PQ.len, h.perm.length_eq]; exact .len L, by simpa only [step] using h⟩
+
+/-- refinement from any pair of related states -/
+theorem pq_refines_from (hs : StrictWeak plt) (hl : H.Lawful (Entry.lt plt)) (ops : List (Op π)) :
+    ∀ {s : PQ π} {L : List (Entry π)}, R plt s L →
+      ∃ L', SpecRun plt L ops (runFrom H plt s ops).2 L' ∧ R plt (runFrom H plt s ops).1 L' := by
+  induction ops with
+  | nil => intro s L h; exact ⟨L, .nil L, h⟩
+  | cons op ops ih =>
+    intro s L h
+    obtain ⟨L1, hstep, hr1⟩ := pq_step_refines (H := H) hs hl h op
+    obtain ⟨L2, hrun, hr2⟩ := ih hr1
+    exact ⟨L2, .cons hstep hrun, hr2⟩
+
+/-- **Refinement for every history** (`pq_refines_spec`): whatever sequence of operations is
+    applied to an empty `PriorityQueue`, the answers are answers of the reference model run on the
+    same history, and the final states are related (same entries, heap intact). -/
+theorem pq_refines_spec (hs : StrictWeak plt) (hl : H.Lawful (Entry.lt plt)) (ops : List (Op π)) :
+    ∃ L, SpecRun plt [] ops (run H plt ops).2 L ∧ R plt (run H plt ops).1 L :=
+  pq_refines_from hs hl ops R.empty
+
+/-- `pq_inv` + `pq_perm`: in every reachable state the heap invariant holds, sequence numbers are
+    distinct and below `_sequence`; nothing is lost or duplicated w.r.t. the reference model. -/
+theorem pq_inv (hs : StrictWeak plt) (hl : H.Lawful (Entry.lt plt)) (ops : List (Op π)) :
+    IsHeap (Entry.lt plt) (run H plt ops).1.pq ∧
+    ((run H plt ops).1.pq.map (·.seq)).Nodup ∧
+    ∀ e ∈ (run H plt ops).1.pq, e.seq < (run H plt ops).1.seq := by
+  obtain ⟨L, _, hr⟩ := pq_refines_spec (H := H) hs hl ops
+  exact ⟨hr.heap, (hr.perm.map _).nodup_iff.mpr (inc_seq_nodup hr.inc),
+    fun e he => hr.bound e (hr.perm.subset he)⟩
+
+/-- `iter_restore`: ordered iteration — started, advanced `k` times, closed — for all `k` and all
+    three restore branches leaves the queue related to the same reference state. -/
+theorem iter_restore (hs : StrictWeak plt) (hl : H.Lawful (Entry.lt plt)) {s : PQ π} {L}
+    (h : R plt s L) (k : Nat) : R plt (s.ordered H plt k).2 L :=
+  (h.ordered hs hl k).1
+
+/-- the no-heapify restore branch is sound because of this fact about lists -/
 theorem iter_restore_merge {α} (lt : α → α → Bool) (popped rest : List α)
     (hp : Sorted lt popped) (hc : ∀ x ∈ popped, ∀ y ∈ rest, lt y x = false)
     (hl : rest.length ≤ popped.length) : IsHeap lt (popped ++ rest) :=
   sorted_prefix_append_heap lt popped rest hp hc hl
+
+/-- `observe_pure`: `copy()` is the identity on values, and `sort`/`refresh`/ordered iteration keep
+    the reference state — so observing never changes what later operations answer. -/
+theorem observe_pure (hs : StrictWeak plt) (hl : H.Lawful (Entry.lt plt)) {s : PQ π} {L}
+    (h : R plt s L) (k : Nat) :
+    PQ.copy s = s ∧ R plt (s.sort plt) L ∧ R plt (s.refresh H plt) L ∧ R plt (s.ordered H plt k).2 L :=
+  ⟨rfl, h.sort hs, h.refresh hl, (h.ordered hs hl k).1⟩
+
+/-! ## Non-vacuity -/
+
+/-- the `heapq` contract is satisfiable (by a real, if slow, heap library) -/
+theorem lawful_satisfiable (hs : StrictWeak plt) : (sortedHeap (Entry π)).Lawful (Entry.lt plt) :=
+  sortedHeap_lawful (entryLt_strictWeak hs)
+
+/-- `<` on integers is a strict weak order, so all theorems apply to integer priorities -/
+theorem int_strictWeak : StrictWeak (fun a b : Int => decide (a < b)) :=
+  ⟨by simp, by intro a b; simp; omega, by intro a b c; simp; omega, by intro a b c; simp; omega⟩
+
+example : ∃ L, R (fun a b : Int => decide (a < b))
+    (run (sortedHeap _) (fun a b : Int => decide (a < b)) [.add 1 10, .add 0 11, .add 0 12, .pop]).1 L ∧
+    L.length = 2 := by
+  obtain ⟨L, hrun, hr⟩ := pq_refines_spec (H := sortedHeap _) int_strictWeak (lawful_satisfiable int_strictWeak)
+    [.add 1 10, .add 0 11, .add 0 12, .pop]
+  refine ⟨L, hr, ?_⟩
+  have := hr.perm.length_eq
+  have h2 : (run (sortedHeap _) (fun a b : Int => decide (a < b))
+      [.add 1 10, .add 0 11, .add 0 12, .pop]).1.pq.length = 2 := by decide
+  omega
+
+/-! ## `PosPriorityQueue` (boosting disabled: `priority_boost_factor = 0`)
+
+The reference state is again the list of live entries in arrival order; its **pop order**
+`order PV.lt L` is the list model of the property: positional (class-0) entries first, then the
+regular entries by priority, then arrival.  `PosPQ.objs L` is that order as a list of objects. -/
+
+section Pos
+open PosPQ
+variable {G : HeapLib (Entry PV)}
+
+/-- `PriorityValue.__lt__` is a strict weak order, so everything proved for `PriorityQueue` applies -/
+theorem pv_order : StrictWeak PV.lt := pv_strictWeak
+
+/-- positional entries come first in the pop order -/
+theorem positional_prefix (L : List (Entry PV)) :
+    (order PV.lt L).Pairwise (fun a b => b.pri.cls = 0 → a.pri.cls = 0) := by
+  refine (order_sorted pv_strictWeak L).imp ?_
+  intro a b hba hb
+  simp only [Entry.lt, Bool.or_eq_false_iff] at hba
+  have h := hba.1
+  simp only [PV.lt, hb] at h
+  by_cases ha : a.pri.cls = 0
+  · exact ha
+  · exfalso
+    have : (0 != a.pri.cls) = true := by simp; omega
+    simp [this] at h; omega
+
+/-- One step of the reference model of `PosPriorityQueue`. -/
+inductive PosSpecStep : List (Entry PV) → PosPQ.Op → PosPQ.Out → List (Entry PV) → Prop
+  /-- append: a regular entry with a fresh arrival stamp; it is popped behind every entry whose
+      (class, priority) is not larger (`order_append`) -/
+  | appendPri (L x p n ins) : (∀ e ∈ L, e.seq < n) →
+      PosSpecStep L (.appendPri x p) .unit (L ++ [⟨{ base := p, insertedAt := ins }, n, x⟩])
+  /-- insert: `list.insert(min(position, len), obj)` on the pop order; the entries in front of the
+      insertion point and the new one become the positional prefix, the rest (`L1`) is untouched -/
+  | insert (L p x es L1 N) : order PV.lt L = es ++ order PV.lt L1 → es.length = min p L.length →
+      L1.Sublist L → N.map (·.obj) = es.map (·.obj) ++ [x] → (∀ n ∈ N, n.pri.cls = 0) →
+      order PV.lt (L1 ++ N) = N ++ order PV.lt L1 →
+      objs (L1 ++ N) = (objs L).insertIdx (min p L.length) x →
+      PosSpecStep L (.insert p x) .unit (L1 ++ N)
+  | popEmpty : PosSpecStep [] .popleft .indexError []
+  /-- popleft: the head of the pop order -/
+  | popleft (L e) : e ∈ L → order PV.lt L = e :: order PV.lt (without L e.seq) →
+      PosSpecStep L .popleft (.obj e.obj) (without L e.seq)
+  | removeAbsent (L x) : (∀ e ∈ L, e.obj ≠ x) → PosSpecStep L (.remove x) .valueError L
+  | remove (L x e) : e ∈ L → e.obj = x → PosSpecStep L (.remove x) .unit (without L e.seq)
+  | findNone (L key rm) : (∀ e ∈ L, key e.obj = false) → PosSpecStep L (.find key rm) .none L
+  | find (L key e) : e ∈ L → key e.obj = true → PosSpecStep L (.find key false) (.obj e.obj) L
+  | findRemove (L key e) : e ∈ L → key e.obj = true →
+      PosSpecStep L (.find key true) (.obj e.obj) (without L e.seq)
+  | reschedNone (L key np) : (∀ e ∈ L, key e.obj = false) → PosSpecStep L (.reschedule key np) .none L
+  /-- rescheduling a positional entry changes nothing -/
+  | reschedPositional (L key np e) : e ∈ L → key e.obj = true → e.pri.cls = 0 →
+      PosSpecStep L (.reschedule key np) (.obj e.obj) L
+  /-- rescheduling a regular entry: unchanged when the priority is the same, otherwise new base
+      priority, boost dropped, arrival stamp kept -/
+  | reschedSame (L key np e) : e ∈ L → key e.obj = true → e.pri.cls ≠ 0 →
+      PosSpecStep L (.reschedule key np) (.obj e.obj) L
+  | resched (L key np e ins) : e ∈ L → key e.obj = true → e.pri.cls ≠ 0 →
+      PosSpecStep L (.reschedule key np) (.obj e.obj) (specResched L e.seq { base := np, insertedAt := ins })
+  /-- reschedule_all: regular entries get `gp obj` as base priority; stamps, classes and positional
+      entries are untouched — so positional and equal-priority entries keep their order -/
+  | rescheduleAll (L gp) : PosSpecStep L (.rescheduleAll gp) .unit (L.map (rebase gp))
+  /-- iteration yields the pop order and changes nothing -/
+  | iter (L) : PosSpecStep L .iter (.objs (objs L)) L
+  | clear (L) : PosSpecStep L .clear .unit []
+
+inductive PosSpecRun : List (Entry PV) → List PosPQ.Op → List PosPQ.Out → List (Entry PV) → Prop
+  | nil (L) : PosSpecRun L [] [] L
+  | cons {L op out L1 ops outs L2} : PosSpecStep L op out L1 → PosSpecRun L1 ops outs L2 →
+      PosSpecRun L (op :: ops) (out :: outs) L2
+
+/-- **single-step refinement** for `PosPriorityQueue` with boosting disabled -/
+theorem pos_step_refines (hl : G.Lawful (Entry.lt PV.lt)) (draw : Nat → Rat)
+    {s : PosPQ} {L : List (Entry PV)} (h : RP s L) (h0 : s.factor = 0) (op : PosPQ.Op) :
+    ∃ L', PosSpecStep L op (PosPQ.step G draw s op).2 L' ∧ RP (PosPQ.step G draw s op).1 L' ∧
+      (PosPQ.step G draw s op).1.factor = 0 := by
+  cases op with
+  | appendPri x p =>
+    have := h.appendPri hl h0 x p draw
+    exact ⟨_, .appendPri L x p s.q.seq s.nIns h.r.bound, this.1, this.2.2⟩
+  | insert p x =>
+    obtain ⟨es, L1, N, h1, h2, h3, h4, h5, h6, h7, h8, h9⟩ := h.insert hl h0 p x draw
+    exact ⟨_, .insert L p x es L1 N h1 h2 h3 h4 h5 h6 h8, h7, h9⟩
+  | popleft =>
+    rcases h.popleft hl draw with ⟨rfl, hn⟩ | ⟨e, s', hp, he, hord, hr, hf⟩
+    · exact ⟨[], by simp only [PosPQ.step, hn]; exact .popEmpty, by simpa only [PosPQ.step, hn] using h,
+        by simpa only [PosPQ.step, hn] using h0⟩
+    · exact ⟨_, by simp only [PosPQ.step, hp]; exact .popleft L e he hord,
+        by simpa only [PosPQ.step, hp] using hr, by simp only [PosPQ.step, hp]; rw [hf, h0]⟩
+  | remove x =>
+    have := h.remove hl x draw
+    cases hr : s.remove G x draw with
+    | none =>
+      rw [hr] at this
+      exact ⟨L, by simp only [PosPQ.step, hr]; exact .removeAbsent L x this,
+        by simpa only [PosPQ.step, hr] using h, by simpa only [PosPQ.step, hr] using h0⟩
+    | some s' =>
+      rw [hr] at this
+      obtain ⟨e, he, hx, hrp, hf⟩ := this
+      exact ⟨_, by simp only [PosPQ.step, hr]; exact .remove L x e he hx,
+        by simpa only [PosPQ.step, hr] using hrp, by simp only [PosPQ.step, hr]; rw [hf, h0]⟩
+  | find key rm =>
+    have := h.find hl key rm
+    cases hr : s.find G key rm with
+    | mk o s' =>
+      rw [hr] at this
+      cases o with
+      | none =>
+        obtain ⟨rfl, hk⟩ := this
+        exact ⟨L, by simp only [PosPQ.step, hr]; exact .findNone L key rm hk,
+          by simpa only [PosPQ.step, hr] using h, by simpa only [PosPQ.step, hr] using h0⟩
+      | some x =>
+        obtain ⟨e, he, hk, rfl, hrest⟩ := this
+        cases rm with
+        | false =>
+          simp only [Bool.false_eq_true, if_false] at hrest
+          subst hrest
+          exact ⟨L, by simp only [PosPQ.step, hr]; exact .find L key e he hk,
+            by simpa only [PosPQ.step, hr] using h, by simpa only [PosPQ.step, hr] using h0⟩
+        | true =>
+          simp only [if_true] at hrest
+          exact ⟨_, by simp only [PosPQ.step, hr]; exact .findRemove L key e he hk,
+            by simpa only [PosPQ.step, hr] using hrest.1, by simp only [PosPQ.step, hr]; rw [hrest.2, h0]⟩
+  | reschedule key np =>
+    have := h.reschedule hl key np
+    cases hr : s.reschedule G key np with
+    | mk o s' =>
+      rw [hr] at this
+      cases o with
+      | none =>
+        obtain ⟨rfl, hk⟩ := this
+        exact ⟨L, by simp only [PosPQ.step, hr]; exact .reschedNone L key np hk,
+          by simpa only [PosPQ.step, hr] using h, by simpa only [PosPQ.step, hr] using h0⟩
+      | some x =>
+        obtain ⟨e, he, hk, rfl, hf, hcase⟩ := this
+        rcases hcase with ⟨hc, rfl⟩ | ⟨hc, rfl | hrp⟩
+        · exact ⟨L, by simp only [PosPQ.step, hr]; exact .reschedPositional L key np e he hk hc,
+            by simpa only [PosPQ.step, hr] using h, by simpa only [PosPQ.step, hr] using h0⟩
+        · exact ⟨L, by simp only [PosPQ.step, hr]; exact .reschedSame L key np e he hk hc,
+            by simpa only [PosPQ.step, hr] using h, by simpa only [PosPQ.step, hr] using h0⟩
+        · exact ⟨_, by simp only [PosPQ.step, hr]; exact .resched L key np e s.nIns he hk hc,
+            by simpa only [PosPQ.step, hr] using hrp, by simp only [PosPQ.step, hr]; rw [hf, h0]⟩
+  | rescheduleAll gp =>
+    exact ⟨_, .rescheduleAll L gp, (h.rescheduleAll hl gp).1, by simpa [PosPQ.step, PosPQ.rescheduleAll] using h0⟩
+  | iter =>
+    have := h.iter
+    exact ⟨L, by simp only [PosPQ.step, this.2]; exact .iter L, by simpa only [PosPQ.step] using this.1,
+      by simpa [PosPQ.step, PosPQ.iter] using h0⟩
+  | clear => exact ⟨[], .clear L, RP.clear s, by simpa [PosPQ.step, PosPQ.clear] using h0⟩
+
+/-- **`pos_refines_list`**: every history of `PosPriorityQueue` operations (boosting disabled)
+    answers as the reference list model does, from any related pair of states; in particular
+    from the empty queue.  Nothing is lost, duplicated or reordered: the implementation's entries
+    are always a permutation of the reference list and its heap invariant holds (`RP`). -/
+theorem pos_refines_list (hl : G.Lawful (Entry.lt PV.lt)) (draw : Nat → Rat) (ops : List PosPQ.Op) :
+    ∀ {s : PosPQ} {L : List (Entry PV)}, RP s L → s.factor = 0 →
+      ∃ L', PosSpecRun L ops (PosPQ.runFrom G draw s ops).2 L' ∧ RP (PosPQ.runFrom G draw s ops).1 L' := by
+  induction ops with
+  | nil => intro s L h _; exact ⟨L, .nil L, h⟩
+  | cons op ops ih =>
+    intro s L h h0
+    obtain ⟨L1, hstep, hr1, hf1⟩ := pos_step_refines (G := G) hl draw h h0 op
+    obtain ⟨L2, hrun, hr2⟩ := ih hr1 hf1
+    exact ⟨L2, .cons hstep hrun, hr2⟩
+
+/-- `reschedule_all_stable`: the reference list after `reschedule_all` has the same arrival stamps,
+    objects and classes, position by position, and positional entries are untouched. -/
+theorem reschedule_all_stable (gp : Nat → Rat) (L : List (Entry PV)) :
+    ∀ e ∈ L, (rebase gp e).seq = e.seq ∧ (rebase gp e).obj = e.obj ∧
+      (rebase gp e).pri.cls = e.pri.cls ∧ (e.pri.cls = 0 → rebase gp e = e) := by
+  intro e _
+  unfold rebase
+  refine ⟨by split <;> rfl, by split <;> rfl, by split <;> simp, fun hc => by simp [hc]⟩
+
+/-- non-vacuity: the relation holds initially with boosting disabled -/
+example : RP ({ factor := 0 } : PosPQ) [] ∧ ({ factor := 0 } : PosPQ).factor = 0 :=
+  ⟨⟨PQ.R.empty, by simp⟩, rfl⟩
+
+end Pos
 
 end Asynkit.C17
